@@ -1270,6 +1270,9 @@ type rem struct {
 func (op *rem) Run(ctx *Context, _ map[string]int32, pc int32, memory []int8, sequenceID int32) (Execution, error) {
 	rs1 := registerRead(ctx, op.forward, op.rs1, sequenceID)
 	rs2 := registerRead(ctx, op.forward, op.rs2, sequenceID)
+	if rs2 == 0 {
+		return Execution{}, fmt.Errorf("division by zero")
+	}
 	if ctx.Debug {
 		fmt.Printf("\t\tRun: Rem %d %d\n", rs1, rs2)
 	}
